@@ -1,9 +1,9 @@
 (* C14 - Pruning derived outputs never changes the values of those that are kept.
-   Statements only; proofs in Proofs/DerivedProofs.v. *)
+   Statements only; proofs in Proofs/DerivedProofs.v and Proofs/OrderIndep.v. *)
 From Coq Require Import QArith Qcanon List String Bool.
 Import ListNotations.
 From S2 Require Import Base.Num Base.Arr Model.Expr Model.Struct Model.Derived Model.Program Model.Run
-     Proofs.NumQc Proofs.DerivedProofs Props.Examples.
+     Proofs.NumQc Proofs.DerivedProofs Proofs.OrderIndep Props.Examples.
 
 (* the request list of every model the API can build declares sources before their users and has
    distinct names *)
@@ -49,6 +49,20 @@ Proof.
   injection H as <-. exists acc. split; reflexivity.
 Qed.
 Print Assumptions C14_save_flag.
+
+(* the order in which requests are declared does not affect any value: two declaration orders of
+   the same requests (each declaring sources before their users, as the API enforces) evaluate every
+   request to the same series - for any number of requests of any kind *)
+Theorem C14_declaration_order :
+  forall (O : NumOps) (m : model) (p : string -> F O) (ntimes : nat) (outputs flows : list (list (F O)))
+         (cvs : list (string * list (F O))) reqs1 reqs2 r1 r2,
+    well_ordered reqs1 -> well_ordered reqs2 ->
+    (forall x, In x reqs1 <-> In x reqs2) ->
+    eval_requests O m p ntimes outputs flows cvs (req_names reqs1) reqs1 [] = Ok r1 ->
+    eval_requests O m p ntimes outputs flows cvs (req_names reqs2) reqs2 [] = Ok r2 ->
+    forall name, In name (req_names reqs1) -> lookup_series O name r1 = lookup_series O name r2.
+Proof. exact declaration_order_irrelevant. Qed.
+Print Assumptions C14_declaration_order.
 
 (* non-vacuity: on the example model, whitelisting "total" (an aggregate of two other outputs)
    returns the same series as the full evaluation *)
